@@ -5,6 +5,7 @@ The model (Download.lean) is the basic HTTP adapter's DoTransfer/download over a
 script of server answers; the temp file's bytes and the bytes fed to the hasher are SEPARATE state
 components, so "forgot to reset the hash" would be a different model, not an invisible one.
 -/
+import LfsModel.Gen
 import LfsModel.Download
 import LfsModel.DownloadAlt
 import LfsModel.DownloadConc
@@ -120,5 +121,24 @@ theorem concurrent_valid_stays (oid : Bytes) (part : Option Bytes) (c : Bytes) (
 example : (DlConc.run (fun b => b) [1, 2] (DlConc.init none none)
     [(0, .create), (0, .recv [1]), (1, .create), (0, .abort), (1, .takePart), (1, .load), (1, .recv [2]), (1, .commit)]).map (·.final)
     = some (some [1, 2]) := by decide
+
+/-! tie to tq/basic_download.go as it is in /repo now -/
+/-- what basicDownloadAdapter.DoTransfer does to the file system around the transfer itself: it removes ITS OWN
+    temporary file at the end, opens that file for reading and writing, adopts the partial file by renaming it onto
+    the temporary one, and hands it back by renaming only after a failed transfer.  There is no link and no second
+    name for the bytes being written: no other process can reach the file this one writes (seventh-round seed C02) -/
+theorem gen_basic_download_file_system_calls :
+    Gen.basicDownloadFsCalls =
+      [
+       -- os.Remove: tmpName | 
+       [111, 115, 46, 82, 101, 109, 111, 118, 101, 58, 32, 116, 109, 112, 78, 97, 109, 101, 32, 124, 32],
+       -- os.OpenFile: f.Name(), os.O_RDWR, 0644 | 
+       [111, 115, 46, 79, 112, 101, 110, 70, 105, 108, 101, 58, 32, 102, 46, 78, 97, 109, 101, 40, 41, 44, 32, 111, 115, 46, 79, 95, 82, 68, 87, 82, 44, 32, 48, 54, 52, 52, 32, 124, 32],
+       -- a.downloadFilename(t), f.Name() | 
+       [97, 46, 100, 111, 119, 110, 108, 111, 97, 100, 70, 105, 108, 101, 110, 97, 109, 101, 40, 116, 41, 44, 32, 102, 46, 78, 97, 109, 101, 40, 41, 32, 124, 32],
+       -- f.Name(), a.downloadFilename(t) | err != nil
+       [102, 46, 78, 97, 109, 101, 40, 41, 44, 32, 97, 46, 100, 111, 119, 110, 108, 111, 97, 100, 70, 105, 108, 101, 110, 97, 109, 101, 40, 116, 41, 32, 124, 32, 101, 114, 114, 32, 33, 61, 32, 110, 105, 108]
+      ]
+      := by decide
 
 end C02
